@@ -173,7 +173,7 @@ def corpus():
 def gen_cases(rng, tier):
     from harness.c01 import gen
     _, tab = _table()
-    n = 260 if tier == "quick" else 2500
+    n = 220 if tier == "quick" else 2500
     out = []
     for _ in range(n):
         theme = gen.pick_theme(rng)
